@@ -18,6 +18,9 @@
 (*   [op |-> "popall", lck]        (__)cds_lfs_pop_all(_blocking) and      *)
 (*                                 cds_lfs_for_each over the popped list   *)
 (*   [op |-> "empty"]              cds_lfs_empty                           *)
+(*   [op |-> "free",   n]          the node "@k" popped earlier is         *)
+(*                                 reclaimed (free()): any later access to *)
+(*                                 it is a use after free                  *)
 (*   [op |-> "sync",   gp]         gp: synchronize_rcu (abstract: returns  *)
 (*                                 once every read-side critical section   *)
 (*                                 open at its start has ended); gp = FALSE*)
@@ -27,7 +30,8 @@
 (* consumer, RCU + grace period before reuse) are scenario choices.        *)
 (* Property monitors (C11): LinMon over an abstract LIFO sequence (top     *)
 (* first), node conservation and concrete shape = abstract stack at        *)
-(* quiescence, no node returned while another thread still holds it (ABA). *)
+(* quiescence, no node returned while another thread still holds it (ABA), *)
+(* no access to a reclaimed node.                                          *)
 (*                                                                         *)
 (* PlainBuf: the plain store node->next = head of push enters the store    *)
 (* buffer (as on the hardware).  With PlainBuf = FALSE it is written       *)
@@ -59,15 +63,16 @@ AllOps == UNION {OpsOf(t) : t \in Threads}
 Regs == {"@1", "@2", "@3"}
 RegIdx(r) == CASE r = "@1" -> 1 [] r = "@2" -> 2 [] OTHER -> 3
 Nodes == {o.n : o \in {x \in AllOps : x.op = "push" /\ x.n \notin Regs}}
+Named == {"push", "free"}               \* operations that name a node
 Locs == {HeadLoc} \cup {NextOf(n) : n \in Nodes}
 FlId(t) == "F:" \o t
 Flushers == {FlId(t) : t \in Threads}
 FlOf == [f \in Flushers |-> CHOOSE t \in Threads : FlId(t) = f]
-\* node pushed by operation o of a thread whose pops returned g so far (NULL: nothing to push)
-Resolve(o, g) == IF o.op # "push" THEN NULL
+\* node pushed / freed by operation o of a thread whose pops returned g so far (NULL: nothing to push / free)
+Resolve(o, g) == IF o.op \notin Named THEN NULL
                  ELSE IF o.n \in Regs THEN (IF RegIdx(o.n) <= Len(g) THEN g[RegIdx(o.n)] ELSE NULL)
                  ELSE o.n
-ASSUME Legacy => \A o \in AllOps : o.op \in {"push", "sync"} \/ (o.op = "pop" /\ o.rcu /\ ~o.lck)
+ASSUME Legacy => \A o \in AllOps : o.op \in {"push", "sync", "free"} \/ (o.op = "pop" /\ o.rcu /\ ~o.lck)
 
 \* ---- abstract object: one LIFO sequence, top first ----
 RECURSIVE Join(_)
@@ -80,6 +85,7 @@ SApply(abs, o, stage, t) ==
     [] o.op = "popall" -> [abs |-> <<>>, res |-> Join(abs)]
     [] o.op = "empty"  -> [abs |-> abs, res |-> IF abs = <<>> THEN "TRUE" ELSE "FALSE"]
     [] o.op = "sync"   -> [abs |-> abs, res |-> "ok"]
+    [] o.op = "free"   -> [abs |-> abs, res |-> IF o.n = NULL THEN "SKIP" ELSE "ok"]
 LM == INSTANCE LinMon WITH Apply <- SApply, Thr <- Threads
 
 (* --algorithm lfs {
@@ -92,7 +98,9 @@ variables
   acc = [k |-> 0],
   pend = [t \in Threads |-> LM!NoOp],
   cfgs = LM!InitCfgs(<<>>),
-  held = {};                                \* ghost: nodes returned by pop / pop_all and not pushed again
+  held = {},                                \* ghost: nodes returned by pop / pop_all and not pushed again
+  freed = {},                               \* ghost: reclaimed nodes
+  uaf = FALSE;                              \* ghost: a reclaimed node was accessed
 
 define {
   LastIdx(t, loc) == LET S == {i \in DOMAIN sb[t] : sb[t][i][1] = loc} IN
@@ -132,17 +140,19 @@ variables i = 1, op = LM!NoOp, a = NULL, hd = NULL, node = NULL, next = NULL, re
 t_top:  while (i <= Len(Prog[self])) {
           op := Prog[self][i];
           pn := Resolve(Prog[self][i], got);                      \* node to push ("@k": the node this thread popped k-th)
-          pend[self] := IF Prog[self][i].op = "push" THEN [op |-> "push", n |-> Resolve(Prog[self][i], got)] ELSE Prog[self][i];
-          held := held \ {Resolve(Prog[self][i], got)};           \* the pusher gives the node up when it calls push
+          pend[self] := IF Prog[self][i].op \in Named THEN [op |-> Prog[self][i].op, n |-> Resolve(Prog[self][i], got)] ELSE Prog[self][i];
+          if (Prog[self][i].op = "push") { held := held \ {Resolve(Prog[self][i], got)} };   \* the pusher gives the node up when it calls push
           res := NULL; seen := <<>>;
 t_disp:   if (op.op = "push") { if (pn = NULL) { res := "SKIP"; goto t_ret } else { hd := NULL; goto p_st } }
           else if (op.op = "pop") { if (op.rcu) { goto q_rl } else { goto q_lock } }
           else if (op.op = "popall") { goto x_lock }
           else if (op.op = "sync") { if (op.gp) { goto g_begin } else { res := "ok"; goto t_ret } }
+          else if (op.op = "free") { if (pn = NULL) { res := "SKIP" } else { freed := freed \cup {pn}; res := "ok" }; goto t_ret }
           else { goto m_ld };
 
         \* ---------------- _cds_lfs_push / _cds_lfs_push_rcu      (head = NULL on entry)
 p_st:     StPlain(NextOf(pn), hd);                               \* node->next = &head->node          (plain store)
+          if (pn \in freed) { uaf := TRUE };
 p_mb:     Mb();                                                  \* cmm_emit_legacy_smp_mb()
 p_cas:    Cas(a, HeadLoc, hd, pn);                               \* head = uatomic_cmpxchg(&s->head, old_head, new_head)
           if (a = hd) { res := IF a = NULL THEN "wasEmpty" ELSE "nonEmpty"; goto t_ret }   \* old_head == head: done
@@ -156,6 +166,7 @@ q_lock:   if (op.lck) { Lock() };                                \* _cds_lfs_pop
 q_ldh:    Ld(hd, HeadLoc);                                       \* head = uatomic_load(&s->head, CONSUME) / rcu_dereference(s->head)
           if (hd = NULL) { res := NULL; goto q_done };           \* empty stack
 q_ldn:    Ld(next, NextOf(hd));                                  \* next = uatomic_load(&head->node.next) / rcu_dereference(head->next)
+          if (hd \in freed) { uaf := TRUE };
 q_cas:    Cas(a, HeadLoc, hd, next);                             \* uatomic_cmpxchg(&s->head, head, next_head) == head ?
           if (a # hd) { goto q_ldh } else { res := hd };         \* busy-loop if head changed under us
 q_mb:     Mb();                                                  \* cmm_emit_legacy_smp_mb()
@@ -175,6 +186,7 @@ x_unlock: if (op.lck) { Unlock() };
           if (hd = NULL) { res := ""; goto t_ret }               \* cds_lfs_for_each: __node = &__head->node; __node != NULL
           else { node := hd; seen := <<hd>> };
 y_next:   Ld(next, NextOf(node));                                \* __node = __node->next                  (plain load)
+          if (node \in freed) { uaf := TRUE };
           if (next = NULL) { res := Join(seen); goto t_ret }
           else if (Len(seen) > Cardinality(Nodes)) { res := Join(seen) \o ",..."; goto t_ret }   \* cyclic list (corruption)
           else { node := next; seen := Append(seen, next); goto y_next };
@@ -201,6 +213,386 @@ t_ret:    cfgs := LM!AfterReturn(cfgs, pend, self, res) || pend[self] := LM!NoOp
 }
 } *)
 \* BEGIN TRANSLATION
+VARIABLES pc, mem, sb, lock, incs, gpwait, acc, pend, cfgs, held, freed, uaf
+
+(* define statement *)
+LastIdx(t, loc) == LET S == {i \in DOMAIN sb[t] : sb[t][i][1] = loc} IN
+                   IF S = {} THEN 0 ELSE CHOOSE i \in S : \A j \in S : j <= i
+Rd(t, loc) == IF LastIdx(t, loc) = 0 THEN mem[loc] ELSE sb[t][LastIdx(t, loc)][2]
+Drained(t) == sb[t] = <<>>
+Ev(t, op, var, a, b, r) == IF Tracing THEN [k |-> acc.k + 1, t |-> t, op |-> op, var |-> var, a |-> a, b |-> b, r |-> r] ELSE acc
+Linearizable == cfgs # {}
+
+VARIABLES i, op, a, hd, node, next, res, pn, seen, got
+
+vars == << pc, mem, sb, lock, incs, gpwait, acc, pend, cfgs, held, freed, uaf, 
+           i, op, a, hd, node, next, res, pn, seen, got >>
+
+ProcSet == (Flushers) \cup (Threads)
+
+Init == (* Global variables *)
+        /\ mem = [l \in Locs |-> NULL]
+        /\ sb = [t \in Threads |-> <<>>]
+        /\ lock = "free"
+        /\ incs = [t \in Threads |-> FALSE]
+        /\ gpwait = [t \in Threads |-> {}]
+        /\ acc = [k |-> 0]
+        /\ pend = [t \in Threads |-> LM!NoOp]
+        /\ cfgs = LM!InitCfgs(<<>>)
+        /\ held = {}
+        /\ freed = {}
+        /\ uaf = FALSE
+        (* Process thr *)
+        /\ i = [self \in Threads |-> 1]
+        /\ op = [self \in Threads |-> LM!NoOp]
+        /\ a = [self \in Threads |-> NULL]
+        /\ hd = [self \in Threads |-> NULL]
+        /\ node = [self \in Threads |-> NULL]
+        /\ next = [self \in Threads |-> NULL]
+        /\ res = [self \in Threads |-> NULL]
+        /\ pn = [self \in Threads |-> NULL]
+        /\ seen = [self \in Threads |-> <<>>]
+        /\ got = [self \in Threads |-> <<>>]
+        /\ pc = [self \in ProcSet |-> CASE self \in Flushers -> "fl"
+                                        [] self \in Threads -> "t_top"]
+
+fl(self) == /\ pc[self] = "fl"
+            /\ sb[FlOf[self]] # <<>>
+            /\ /\ acc' = IF Tracing THEN [k |-> acc.k + 1, t |-> FlOf[self], op |-> "flush", var |-> Head(sb[FlOf[self]])[1],
+                                        a |-> Head(sb[FlOf[self]])[2], b |-> "-", r |-> "-"] ELSE acc
+               /\ mem' = [mem EXCEPT ![Head(sb[FlOf[self]])[1]] = Head(sb[FlOf[self]])[2]]
+               /\ sb' = [sb EXCEPT ![FlOf[self]] = Tail(sb[FlOf[self]])]
+            /\ pc' = [pc EXCEPT ![self] = "fl"]
+            /\ UNCHANGED << lock, incs, gpwait, pend, cfgs, held, freed, uaf, 
+                            i, op, a, hd, node, next, res, pn, seen, got >>
+
+flusher(self) == fl(self)
+
+t_top(self) == /\ pc[self] = "t_top"
+               /\ IF i[self] <= Len(Prog[self])
+                     THEN /\ op' = [op EXCEPT ![self] = Prog[self][i[self]]]
+                          /\ pn' = [pn EXCEPT ![self] = Resolve(Prog[self][i[self]], got[self])]
+                          /\ pend' = [pend EXCEPT ![self] = IF Prog[self][i[self]].op \in Named THEN [op |-> Prog[self][i[self]].op, n |-> Resolve(Prog[self][i[self]], got[self])] ELSE Prog[self][i[self]]]
+                          /\ IF Prog[self][i[self]].op = "push"
+                                THEN /\ held' = held \ {Resolve(Prog[self][i[self]], got[self])}
+                                ELSE /\ TRUE
+                                     /\ held' = held
+                          /\ res' = [res EXCEPT ![self] = NULL]
+                          /\ seen' = [seen EXCEPT ![self] = <<>>]
+                          /\ pc' = [pc EXCEPT ![self] = "t_disp"]
+                     ELSE /\ pc' = [pc EXCEPT ![self] = "Done"]
+                          /\ UNCHANGED << pend, held, op, res, pn, seen >>
+               /\ UNCHANGED << mem, sb, lock, incs, gpwait, acc, cfgs, freed, 
+                               uaf, i, a, hd, node, next, got >>
+
+t_disp(self) == /\ pc[self] = "t_disp"
+                /\ IF op[self].op = "push"
+                      THEN /\ IF pn[self] = NULL
+                                 THEN /\ res' = [res EXCEPT ![self] = "SKIP"]
+                                      /\ pc' = [pc EXCEPT ![self] = "t_ret"]
+                                      /\ hd' = hd
+                                 ELSE /\ hd' = [hd EXCEPT ![self] = NULL]
+                                      /\ pc' = [pc EXCEPT ![self] = "p_st"]
+                                      /\ res' = res
+                           /\ freed' = freed
+                      ELSE /\ IF op[self].op = "pop"
+                                 THEN /\ IF op[self].rcu
+                                            THEN /\ pc' = [pc EXCEPT ![self] = "q_rl"]
+                                            ELSE /\ pc' = [pc EXCEPT ![self] = "q_lock"]
+                                      /\ UNCHANGED << freed, res >>
+                                 ELSE /\ IF op[self].op = "popall"
+                                            THEN /\ pc' = [pc EXCEPT ![self] = "x_lock"]
+                                                 /\ UNCHANGED << freed, res >>
+                                            ELSE /\ IF op[self].op = "sync"
+                                                       THEN /\ IF op[self].gp
+                                                                  THEN /\ pc' = [pc EXCEPT ![self] = "g_begin"]
+                                                                       /\ res' = res
+                                                                  ELSE /\ res' = [res EXCEPT ![self] = "ok"]
+                                                                       /\ pc' = [pc EXCEPT ![self] = "t_ret"]
+                                                            /\ freed' = freed
+                                                       ELSE /\ IF op[self].op = "free"
+                                                                  THEN /\ IF pn[self] = NULL
+                                                                             THEN /\ res' = [res EXCEPT ![self] = "SKIP"]
+                                                                                  /\ freed' = freed
+                                                                             ELSE /\ freed' = (freed \cup {pn[self]})
+                                                                                  /\ res' = [res EXCEPT ![self] = "ok"]
+                                                                       /\ pc' = [pc EXCEPT ![self] = "t_ret"]
+                                                                  ELSE /\ pc' = [pc EXCEPT ![self] = "m_ld"]
+                                                                       /\ UNCHANGED << freed, 
+                                                                                       res >>
+                           /\ hd' = hd
+                /\ UNCHANGED << mem, sb, lock, incs, gpwait, acc, pend, cfgs, 
+                                held, uaf, i, op, a, node, next, pn, seen, got >>
+
+p_st(self) == /\ pc[self] = "p_st"
+              /\ IF TSO /\ PlainBuf
+                    THEN /\ sb' = [sb EXCEPT ![self] = Append(sb[self], <<(NextOf(pn[self])), hd[self]>>)]
+                         /\ mem' = mem
+                    ELSE /\ Drained(self)
+                         /\ mem' = [mem EXCEPT ![(NextOf(pn[self]))] = hd[self]]
+                         /\ sb' = sb
+              /\ acc' = Ev(self, "st", (NextOf(pn[self])), hd[self], "-", "-")
+              /\ IF pn[self] \in freed
+                    THEN /\ uaf' = TRUE
+                    ELSE /\ TRUE
+                         /\ uaf' = uaf
+              /\ pc' = [pc EXCEPT ![self] = "p_mb"]
+              /\ UNCHANGED << lock, incs, gpwait, pend, cfgs, held, freed, i, 
+                              op, a, hd, node, next, res, pn, seen, got >>
+
+p_mb(self) == /\ pc[self] = "p_mb"
+              /\ Drained(self)
+              /\ acc' = Ev(self, "mb", "-", "-", "-", "-")
+              /\ pc' = [pc EXCEPT ![self] = "p_cas"]
+              /\ UNCHANGED << mem, sb, lock, incs, gpwait, pend, cfgs, held, 
+                              freed, uaf, i, op, a, hd, node, next, res, pn, 
+                              seen, got >>
+
+p_cas(self) == /\ pc[self] = "p_cas"
+               /\ Drained(self)
+               /\ a' = [a EXCEPT ![self] = mem[HeadLoc]]
+               /\ IF mem[HeadLoc] = hd[self]
+                     THEN /\ mem' = [mem EXCEPT ![HeadLoc] = pn[self]]
+                     ELSE /\ TRUE
+                          /\ mem' = mem
+               /\ acc' = Ev(self, "cas", HeadLoc, hd[self], pn[self], a'[self])
+               /\ IF a'[self] = hd[self]
+                     THEN /\ res' = [res EXCEPT ![self] = IF a'[self] = NULL THEN "wasEmpty" ELSE "nonEmpty"]
+                          /\ pc' = [pc EXCEPT ![self] = "t_ret"]
+                          /\ hd' = hd
+                     ELSE /\ hd' = [hd EXCEPT ![self] = a'[self]]
+                          /\ pc' = [pc EXCEPT ![self] = "p_st"]
+                          /\ res' = res
+               /\ UNCHANGED << sb, lock, incs, gpwait, pend, cfgs, held, freed, 
+                               uaf, i, op, node, next, pn, seen, got >>
+
+q_rl(self) == /\ pc[self] = "q_rl"
+              /\ incs' = [incs EXCEPT ![self] = TRUE]
+              /\ acc' = Ev(self, "rlock", "-", "-", "-", "-")
+              /\ pc' = [pc EXCEPT ![self] = "q_ldh"]
+              /\ UNCHANGED << mem, sb, lock, gpwait, pend, cfgs, held, freed, 
+                              uaf, i, op, a, hd, node, next, res, pn, seen, 
+                              got >>
+
+q_lock(self) == /\ pc[self] = "q_lock"
+                /\ IF op[self].lck
+                      THEN /\ Drained(self) /\ lock = "free"
+                           /\ lock' = self
+                           /\ acc' = Ev(self, "lock", LockName, "-", "-", "-")
+                      ELSE /\ TRUE
+                           /\ UNCHANGED << lock, acc >>
+                /\ pc' = [pc EXCEPT ![self] = "q_ldh"]
+                /\ UNCHANGED << mem, sb, incs, gpwait, pend, cfgs, held, freed, 
+                                uaf, i, op, a, hd, node, next, res, pn, seen, 
+                                got >>
+
+q_ldh(self) == /\ pc[self] = "q_ldh"
+               /\ hd' = [hd EXCEPT ![self] = Rd(self, HeadLoc)]
+               /\ acc' = Ev(self, "ld", HeadLoc, "-", "-", Rd(self, HeadLoc))
+               /\ IF hd'[self] = NULL
+                     THEN /\ res' = [res EXCEPT ![self] = NULL]
+                          /\ pc' = [pc EXCEPT ![self] = "q_done"]
+                     ELSE /\ pc' = [pc EXCEPT ![self] = "q_ldn"]
+                          /\ res' = res
+               /\ UNCHANGED << mem, sb, lock, incs, gpwait, pend, cfgs, held, 
+                               freed, uaf, i, op, a, node, next, pn, seen, got >>
+
+q_ldn(self) == /\ pc[self] = "q_ldn"
+               /\ next' = [next EXCEPT ![self] = Rd(self, (NextOf(hd[self])))]
+               /\ acc' = Ev(self, "ld", (NextOf(hd[self])), "-", "-", Rd(self, (NextOf(hd[self]))))
+               /\ IF hd[self] \in freed
+                     THEN /\ uaf' = TRUE
+                     ELSE /\ TRUE
+                          /\ uaf' = uaf
+               /\ pc' = [pc EXCEPT ![self] = "q_cas"]
+               /\ UNCHANGED << mem, sb, lock, incs, gpwait, pend, cfgs, held, 
+                               freed, i, op, a, hd, node, res, pn, seen, got >>
+
+q_cas(self) == /\ pc[self] = "q_cas"
+               /\ Drained(self)
+               /\ a' = [a EXCEPT ![self] = mem[HeadLoc]]
+               /\ IF mem[HeadLoc] = hd[self]
+                     THEN /\ mem' = [mem EXCEPT ![HeadLoc] = next[self]]
+                     ELSE /\ TRUE
+                          /\ mem' = mem
+               /\ acc' = Ev(self, "cas", HeadLoc, hd[self], next[self], a'[self])
+               /\ IF a'[self] # hd[self]
+                     THEN /\ pc' = [pc EXCEPT ![self] = "q_ldh"]
+                          /\ res' = res
+                     ELSE /\ res' = [res EXCEPT ![self] = hd[self]]
+                          /\ pc' = [pc EXCEPT ![self] = "q_mb"]
+               /\ UNCHANGED << sb, lock, incs, gpwait, pend, cfgs, held, freed, 
+                               uaf, i, op, hd, node, next, pn, seen, got >>
+
+q_mb(self) == /\ pc[self] = "q_mb"
+              /\ Drained(self)
+              /\ acc' = Ev(self, "mb", "-", "-", "-", "-")
+              /\ pc' = [pc EXCEPT ![self] = "q_done"]
+              /\ UNCHANGED << mem, sb, lock, incs, gpwait, pend, cfgs, held, 
+                              freed, uaf, i, op, a, hd, node, next, res, pn, 
+                              seen, got >>
+
+q_done(self) == /\ pc[self] = "q_done"
+                /\ IF op[self].rcu
+                      THEN /\ pc' = [pc EXCEPT ![self] = "q_ru"]
+                      ELSE /\ pc' = [pc EXCEPT ![self] = "q_unlock"]
+                /\ UNCHANGED << mem, sb, lock, incs, gpwait, acc, pend, cfgs, 
+                                held, freed, uaf, i, op, a, hd, node, next, 
+                                res, pn, seen, got >>
+
+q_ru(self) == /\ pc[self] = "q_ru"
+              /\ incs' = [incs EXCEPT ![self] = FALSE]
+              /\ gpwait' = [u \in Threads |-> gpwait[u] \ {self}]
+              /\ acc' = Ev(self, "runlock", "-", "-", "-", "-")
+              /\ pc' = [pc EXCEPT ![self] = "t_ret"]
+              /\ UNCHANGED << mem, sb, lock, pend, cfgs, held, freed, uaf, i, 
+                              op, a, hd, node, next, res, pn, seen, got >>
+
+q_unlock(self) == /\ pc[self] = "q_unlock"
+                  /\ IF op[self].lck
+                        THEN /\ Drained(self)
+                             /\ lock' = "free"
+                             /\ acc' = Ev(self, "unlock", LockName, "-", "-", "-")
+                        ELSE /\ TRUE
+                             /\ UNCHANGED << lock, acc >>
+                  /\ pc' = [pc EXCEPT ![self] = "t_ret"]
+                  /\ UNCHANGED << mem, sb, incs, gpwait, pend, cfgs, held, 
+                                  freed, uaf, i, op, a, hd, node, next, res, 
+                                  pn, seen, got >>
+
+x_lock(self) == /\ pc[self] = "x_lock"
+                /\ IF op[self].lck
+                      THEN /\ Drained(self) /\ lock = "free"
+                           /\ lock' = self
+                           /\ acc' = Ev(self, "lock", LockName, "-", "-", "-")
+                      ELSE /\ TRUE
+                           /\ UNCHANGED << lock, acc >>
+                /\ pc' = [pc EXCEPT ![self] = "x_xchg"]
+                /\ UNCHANGED << mem, sb, incs, gpwait, pend, cfgs, held, freed, 
+                                uaf, i, op, a, hd, node, next, res, pn, seen, 
+                                got >>
+
+x_xchg(self) == /\ pc[self] = "x_xchg"
+                /\ Drained(self)
+                /\ hd' = [hd EXCEPT ![self] = mem[HeadLoc]]
+                /\ mem' = [mem EXCEPT ![HeadLoc] = NULL]
+                /\ acc' = Ev(self, "xchg", HeadLoc, NULL, "-", hd'[self])
+                /\ pc' = [pc EXCEPT ![self] = "x_mb"]
+                /\ UNCHANGED << sb, lock, incs, gpwait, pend, cfgs, held, 
+                                freed, uaf, i, op, a, node, next, res, pn, 
+                                seen, got >>
+
+x_mb(self) == /\ pc[self] = "x_mb"
+              /\ Drained(self)
+              /\ acc' = Ev(self, "mb", "-", "-", "-", "-")
+              /\ pc' = [pc EXCEPT ![self] = "x_unlock"]
+              /\ UNCHANGED << mem, sb, lock, incs, gpwait, pend, cfgs, held, 
+                              freed, uaf, i, op, a, hd, node, next, res, pn, 
+                              seen, got >>
+
+x_unlock(self) == /\ pc[self] = "x_unlock"
+                  /\ IF op[self].lck
+                        THEN /\ Drained(self)
+                             /\ lock' = "free"
+                             /\ acc' = Ev(self, "unlock", LockName, "-", "-", "-")
+                        ELSE /\ TRUE
+                             /\ UNCHANGED << lock, acc >>
+                  /\ IF hd[self] = NULL
+                        THEN /\ res' = [res EXCEPT ![self] = ""]
+                             /\ pc' = [pc EXCEPT ![self] = "t_ret"]
+                             /\ UNCHANGED << node, seen >>
+                        ELSE /\ node' = [node EXCEPT ![self] = hd[self]]
+                             /\ seen' = [seen EXCEPT ![self] = <<hd[self]>>]
+                             /\ pc' = [pc EXCEPT ![self] = "y_next"]
+                             /\ res' = res
+                  /\ UNCHANGED << mem, sb, incs, gpwait, pend, cfgs, held, 
+                                  freed, uaf, i, op, a, hd, next, pn, got >>
+
+y_next(self) == /\ pc[self] = "y_next"
+                /\ next' = [next EXCEPT ![self] = Rd(self, (NextOf(node[self])))]
+                /\ acc' = Ev(self, "ld", (NextOf(node[self])), "-", "-", Rd(self, (NextOf(node[self]))))
+                /\ IF node[self] \in freed
+                      THEN /\ uaf' = TRUE
+                      ELSE /\ TRUE
+                           /\ uaf' = uaf
+                /\ IF next'[self] = NULL
+                      THEN /\ res' = [res EXCEPT ![self] = Join(seen[self])]
+                           /\ pc' = [pc EXCEPT ![self] = "t_ret"]
+                           /\ UNCHANGED << node, seen >>
+                      ELSE /\ IF Len(seen[self]) > Cardinality(Nodes)
+                                 THEN /\ res' = [res EXCEPT ![self] = Join(seen[self]) \o ",..."]
+                                      /\ pc' = [pc EXCEPT ![self] = "t_ret"]
+                                      /\ UNCHANGED << node, seen >>
+                                 ELSE /\ node' = [node EXCEPT ![self] = next'[self]]
+                                      /\ seen' = [seen EXCEPT ![self] = Append(seen[self], next'[self])]
+                                      /\ pc' = [pc EXCEPT ![self] = "y_next"]
+                                      /\ res' = res
+                /\ UNCHANGED << mem, sb, lock, incs, gpwait, pend, cfgs, held, 
+                                freed, i, op, a, hd, pn, got >>
+
+g_begin(self) == /\ pc[self] = "g_begin"
+                 /\ gpwait' = [gpwait EXCEPT ![self] = {t \in Threads \ {self} : incs[t]}]
+                 /\ acc' = Ev(self, "gp_begin", "-", "-", "-", "-")
+                 /\ pc' = [pc EXCEPT ![self] = "g_wait"]
+                 /\ UNCHANGED << mem, sb, lock, incs, pend, cfgs, held, freed, 
+                                 uaf, i, op, a, hd, node, next, res, pn, seen, 
+                                 got >>
+
+g_wait(self) == /\ pc[self] = "g_wait"
+                /\ Drained(self) /\ gpwait[self] = {}
+                /\ acc' = Ev(self, "gp_end", "-", "-", "-", "-")
+                /\ res' = [res EXCEPT ![self] = "ok"]
+                /\ pc' = [pc EXCEPT ![self] = "t_ret"]
+                /\ UNCHANGED << mem, sb, lock, incs, gpwait, pend, cfgs, held, 
+                                freed, uaf, i, op, a, hd, node, next, pn, seen, 
+                                got >>
+
+m_ld(self) == /\ pc[self] = "m_ld"
+              /\ a' = [a EXCEPT ![self] = Rd(self, HeadLoc)]
+              /\ acc' = Ev(self, "ld", HeadLoc, "-", "-", Rd(self, HeadLoc))
+              /\ res' = [res EXCEPT ![self] = IF a'[self] = NULL THEN "TRUE" ELSE "FALSE"]
+              /\ pc' = [pc EXCEPT ![self] = "t_ret"]
+              /\ UNCHANGED << mem, sb, lock, incs, gpwait, pend, cfgs, held, 
+                              freed, uaf, i, op, hd, node, next, pn, seen, got >>
+
+t_ret(self) == /\ pc[self] = "t_ret"
+               /\ /\ cfgs' = LM!AfterReturn(cfgs, pend, self, res[self])
+                  /\ pend' = [pend EXCEPT ![self] = LM!NoOp]
+               /\ IF op[self].op = "pop"
+                     THEN /\ got' = [got EXCEPT ![self] = Append(got[self], res[self])]
+                          /\ IF res[self] # NULL
+                                THEN /\ Assert(res[self] \notin held, 
+                                               "Failure of assertion at line 208, column 50.")
+                                     /\ held' = (held \cup {res[self]})
+                                ELSE /\ TRUE
+                                     /\ held' = held
+                     ELSE /\ IF op[self].op = "popall"
+                                THEN /\ Assert(Elems(seen[self]) \cap held = {} /\ Cardinality(Elems(seen[self])) = Len(seen[self]), 
+                                               "Failure of assertion at line 209, column 40.")
+                                     /\ held' = (held \cup Elems(seen[self]))
+                                ELSE /\ TRUE
+                                     /\ held' = held
+                          /\ got' = got
+               /\ i' = [i EXCEPT ![self] = i[self] + 1]
+               /\ pc' = [pc EXCEPT ![self] = "t_top"]
+               /\ UNCHANGED << mem, sb, lock, incs, gpwait, acc, freed, uaf, 
+                               op, a, hd, node, next, res, pn, seen >>
+
+thr(self) == t_top(self) \/ t_disp(self) \/ p_st(self) \/ p_mb(self)
+                \/ p_cas(self) \/ q_rl(self) \/ q_lock(self) \/ q_ldh(self)
+                \/ q_ldn(self) \/ q_cas(self) \/ q_mb(self) \/ q_done(self)
+                \/ q_ru(self) \/ q_unlock(self) \/ x_lock(self)
+                \/ x_xchg(self) \/ x_mb(self) \/ x_unlock(self)
+                \/ y_next(self) \/ g_begin(self) \/ g_wait(self)
+                \/ m_ld(self) \/ t_ret(self)
+
+Next == (\E self \in Flushers: flusher(self))
+           \/ (\E self \in Threads: thr(self))
+
+Spec == /\ Init /\ [][Next]_vars
+        /\ \A self \in Flushers : WF_vars(flusher(self))
+        /\ \A self \in Threads : WF_vars(thr(self))
+
 \* END TRANSLATION
 
 AllDone == \A t \in Threads : pc[t] = "Done"
@@ -210,6 +602,8 @@ Conservation == AllDone => \A c \in cfgs : Elems(c.abs) \cap held = {} /\ Elems(
 RECURSIVE Walk(_, _, _)
 Walk(m, n, fuel) == IF n = NULL THEN <<>> ELSE IF fuel = 0 THEN <<"?">> ELSE <<n>> \o Walk(m, m[NextOf(n)], fuel - 1)
 Shape == (AllDone /\ \A t \in Threads : sb[t] = <<>>) => \E c \in cfgs : Walk(mem, mem[HeadLoc], Cardinality(Nodes) + 1) = c.abs
+\* no thread touches the next field of a node after it was reclaimed
+NoUAF == ~uaf
 \* deadlock freedom with an explicit notion of termination (flushers never terminate)
 DeadlockFree == AllDone \/ ENABLED Next
 SBBound == \A t \in Threads : Len(sb[t]) <= SBMax
